@@ -94,6 +94,9 @@ def pcgrad(index, ctx):
     stray = [n for n in ast.walk(inner) if isinstance(n, ast.Continue)]
     ctx.require(okc and len(stray) == len(conts), "R1", "PCGrad: only the row itself is skipped", "continue only when j == i",
                 "a `continue` in the projection loop is not guarded by `j == i` alone", _loc(fi, conts[0]) if conts else fi.loc())
+    skips_self = bool(conts) or any(isinstance(c, ast.Compare) and isinstance(c.ops[0], ast.NotEq) and {jvar, ivar} <= names_read(c) for c in ast.walk(inner))
+    ctx.require(skips_self, "R1", "PCGrad: a row is never projected off itself", "the loop skips j == i",
+                "the projection loop no longer skips j == i: once row i conflicts with its own projected vector its coefficient is altered (outputs outside the published candidate set for m >= 3)", _loc(fi, inner))
     # accumulation of the projected vector in the outer loop, after the inner loop
     after = outer.body[outer.body.index(inner) + 1:] if inner in outer.body else []
     acc = [s for s in after if (isinstance(s, ast.AugAssign) and isinstance(s.op, ast.Add) and set(carried) & names_read(s.value)) or
@@ -253,6 +256,47 @@ def mgda(index, ctx, A, by_class):
                 ok = True
     ctx.require(ok, "R5", "MGDA: update is a convex step", detail + " has coefficients summing to 1",
                 f"update `{norm_text(u)}` is not of the form (1-g)·alpha + g·e_t (coefficients do not sum to 1)", _loc(fi, u))
+    # the closed-form step size is only used where 0 < gamma < 1 is guaranteed: a < b and a < c
+    from ..cfg import cfg_of
+    from .C12 import implied_conditions
+
+    cfg = cfg_of(fi.node)
+    gname = None
+    for n in names_read(u.value):
+        if any(isinstance(s2, ast.Assign) and isinstance(s2.targets[0], ast.Name) and s2.targets[0].id == n and isinstance(s2.value, ast.BinOp) and isinstance(s2.value.op, ast.Div)
+               for s2 in ast.walk(loop)):
+            gname = n
+    if gname is None:
+        ctx.undecided("R5", "MGDA: step size", "closed-form step size assignment not recognised", _loc(fi, loop))
+    else:
+        closed = [nd for nd in cfg.stmt_nodes() if nd.kind == "stmt" and isinstance(nd.ast, ast.Assign) and isinstance(nd.ast.targets[0], ast.Name) and nd.ast.targets[0].id == gname
+                  and isinstance(nd.ast.value, ast.BinOp) and isinstance(nd.ast.value.op, ast.Div)]
+        consts = [nd.ast.value.value for nd in cfg.stmt_nodes() if nd.kind == "stmt" and isinstance(nd.ast, ast.Assign) and isinstance(nd.ast.targets[0], ast.Name)
+                  and nd.ast.targets[0].id == gname and isinstance(nd.ast.value, ast.Constant)]
+        for nd in closed:
+            num, den = nd.ast.value.left, nd.ast.value.right
+            pn, pd = expr_poly(num), expr_poly(den)
+            facts = []
+            for t, lbl in cfg.guards_of(nd):
+                if t.kind == "test" and isinstance(t.ast, ast.If):
+                    for c, tr in implied_conditions(t.ast.test, lbl):
+                        if isinstance(c, ast.Compare) and len(c.ops) == 1:
+                            l, r = expr_poly(c.left), expr_poly(c.comparators[0])
+                            if l is None or r is None:
+                                continue
+                            op = type(c.ops[0])
+                            # normalise to "poly > 0"
+                            if (op is ast.LtE and not tr) or (op is ast.Gt and tr):
+                                facts.append(l - r)
+                            elif (op is ast.GtE and not tr) or (op is ast.Lt and tr):
+                                facts.append(r - l)
+            pos_num = pn is not None and any(f == pn for f in facts)
+            pos_rest = pn is not None and pd is not None and any(f == pd - pn for f in facts)
+            ctx.require(pos_num and pos_rest, "R5", "MGDA: closed-form step size lies in (0, 1)", f"guards imply {pn} > 0 and {pd - pn if pd is not None and pn is not None else '?'} > 0",
+                        f"`{norm_text(nd.ast)}` is used on a branch where " + ("; ".join(x for x, ok in ((f"{pn} > 0 is not guaranteed (step could be negative)", pos_num),
+                                                                                                      (f"{pd - pn if pd is not None and pn is not None else '?'} > 0 is not guaranteed (step could exceed 1: the iterate leaves the simplex)", pos_rest)) if not ok)),
+                        _loc(fi, nd.ast), derivation={"facts": [repr(f) for f in facts]})
+        ctx.require(all(isinstance(c, (int, float)) and 0 <= c <= 1 for c in consts), "R5", "MGDA: constant step sizes lie in [0, 1]", f"constants {consts}", f"constant step sizes {consts}", _loc(fi, loop))
     # uniform start from the interpreter: first mul/div making 1/m
     init = [s for s in fi.node.body if isinstance(s, ast.Assign) and isinstance(s.targets[0], ast.Name) and s.targets[0].id == a]
     okinit = False
